@@ -182,6 +182,48 @@ impl<S: Storage> Builder<S> {
         self.resolve_column_index_on_schema(expr, &schema)
     }
 
+    /// Resolve the key lists of a hash or merge join. The join executors compare key *values*,
+    /// which are equal only within one type (integers of all widths are normalized to one),
+    /// whereas `=` compares a DOUBLE or a DECIMAL with another number numerically: keys of
+    /// different numeric types are cast to the type in which `=` compares them.
+    fn resolve_join_keys(&self, lkeys: Id, rkeys: Id, left: Id, right: Id) -> (RecExpr, RecExpr) {
+        let lexpr = self.resolve_column_index(lkeys, left);
+        let rexpr = self.resolve_column_index(rkeys, right);
+        let (Ok(ltypes), Ok(rtypes)) = (
+            self.egraph[lkeys].data.type_.as_ref(),
+            self.egraph[rkeys].data.type_.as_ref(),
+        ) else {
+            return (lexpr, rexpr);
+        };
+        let is_int = |t: &DataType| matches!(t, DataType::Int16 | DataType::Int32 | DataType::Int64);
+        let common = (ltypes.as_struct().iter().zip(rtypes.as_struct()))
+            .map(|(l, r)| match (l, r) {
+                _ if l == r || (is_int(l) && is_int(r)) => None,
+                _ if !l.is_number() || !r.is_number() => None,
+                (DataType::Float64, _) | (_, DataType::Float64) => Some(DataType::Float64),
+                _ => Some(DataType::Decimal(None, None)),
+            })
+            .collect_vec();
+        let cast_keys = |mut keys: RecExpr| {
+            let ids = keys.as_ref().last().unwrap().as_list().to_vec();
+            let ids = (ids.into_iter().zip(&common))
+                .map(|(id, ty)| match ty {
+                    Some(ty) => {
+                        let ty = keys.add(Expr::Type(ty.clone()));
+                        keys.add(Expr::Cast([ty, id]))
+                    }
+                    None => id,
+                })
+                .collect();
+            keys.add(Expr::List(ids));
+            keys
+        };
+        if common.iter().all(|c| c.is_none()) {
+            return (lexpr, rexpr);
+        }
+        (cast_keys(lexpr), cast_keys(rexpr))
+    }
+
     /// Resolve the column index of `expr` in `schema`.
     fn resolve_column_index_on_schema(&self, expr: Id, schema: &[Id]) -> RecExpr {
         // the expression itself may be an input column (e.g. `WHERE flag`)
@@ -493,9 +535,10 @@ impl<S: Storage> Builder<S> {
     fn build_hashjoin<const T: JoinType>(&mut self, args: [Id; 6]) -> BoxedExecutor {
         let [_, cond, lkeys, rkeys, left, right] = args;
         assert_eq!(self.node(cond), &Expr::true_());
+        let (left_keys, right_keys) = self.resolve_join_keys(lkeys, rkeys, left, right);
         HashJoinExecutor::<T> {
-            left_keys: self.resolve_column_index(lkeys, left),
-            right_keys: self.resolve_column_index(rkeys, right),
+            left_keys,
+            right_keys,
             left_types: self.plan_types(left).to_vec(),
             right_types: self.plan_types(right).to_vec(),
         }
@@ -504,17 +547,18 @@ impl<S: Storage> Builder<S> {
 
     fn build_hashsemijoin(&mut self, args: [Id; 6], anti: bool) -> BoxedExecutor {
         let [_, cond, lkeys, rkeys, left, right] = args;
+        let (left_keys, right_keys) = self.resolve_join_keys(lkeys, rkeys, left, right);
         if self.node(cond) == &Expr::true_() {
             HashSemiJoinExecutor {
-                left_keys: self.resolve_column_index(lkeys, left),
-                right_keys: self.resolve_column_index(rkeys, right),
+                left_keys,
+                right_keys,
                 anti,
             }
             .execute(self.build_id(left), self.build_id(right))
         } else {
             HashSemiJoinExecutor2 {
-                left_keys: self.resolve_column_index(lkeys, left),
-                right_keys: self.resolve_column_index(rkeys, right),
+                left_keys,
+                right_keys,
                 condition: self.resolve_column_index2(cond, left, right),
                 left_types: self.plan_types(left).to_vec(),
                 right_types: self.plan_types(right).to_vec(),
@@ -527,9 +571,10 @@ impl<S: Storage> Builder<S> {
     fn build_mergejoin<const T: JoinType>(&mut self, args: [Id; 6]) -> BoxedExecutor {
         let [_, cond, lkeys, rkeys, left, right] = args;
         assert_eq!(self.node(cond), &Expr::true_());
+        let (left_keys, right_keys) = self.resolve_join_keys(lkeys, rkeys, left, right);
         MergeJoinExecutor::<T> {
-            left_keys: self.resolve_column_index(lkeys, left),
-            right_keys: self.resolve_column_index(rkeys, right),
+            left_keys,
+            right_keys,
             left_types: self.plan_types(left).to_vec(),
             right_types: self.plan_types(right).to_vec(),
         }
